@@ -34,6 +34,32 @@ VFine4   == {0, 3333, 9474, 10000, 16667, 20000, 6285, 8333, 19167, 1667}
 VFine5   == {0, 33333, 94737, 100000, 166667, 62853, 83333, 191667, 16667, 200000, 12345}
 S1e4 == {10000}
 S1e5 == {100000}
+\* call forms: the default one, and a covering set (every value of every argument form at least
+\* twice, most pairs of values at least once)
+Fm(c, n, s, p, a, k, m, d) == [set |-> TRUE, cont |-> c, naming |-> n, subst |-> s, psym |-> p, num |-> a,
+                               calls |-> k, modearg |-> m, allow |-> d]
+F_Default == {DefaultForm}
+F_Cover == {
+    Fm("list", "plain", "map", "default", "int", 1, "plain", FALSE),
+    Fm("set", "reversed", "map", "default", "int", 1, "plain", FALSE),
+    Fm("tuple", "plain", "superset", "user_int", "float", 1, "one", TRUE),
+    Fm("frozenset", "reversed", "str", "default", "int", 2, "plain", FALSE),
+    Fm("dict", "plain", "none", "user_plain", "explicit0", 1, "plain", TRUE),
+    Fm("set", "plain", "str", "user_int", "float", 2, "one", FALSE),
+    Fm("list", "reversed", "none", "default", "explicit0", 2, "one", TRUE),
+    Fm("dict", "reversed", "superset", "default", "int", 1, "plain", FALSE),
+    Fm("set", "reversed", "none", "user_plain", "float", 1, "plain", TRUE),
+    Fm("tuple", "reversed", "str", "user_int", "explicit0", 1, "plain", FALSE),
+    Fm("frozenset", "plain", "superset", "user_plain", "int", 2, "one", TRUE),
+    Fm("list", "plain", "str", "default", "float", 1, "plain", TRUE),
+    Fm("dict", "reversed", "map", "user_int", "int", 2, "one", FALSE),
+    Fm("tuple", "plain", "none", "default", "float", 2, "plain", FALSE),
+    Fm("frozenset", "reversed", "map", "default", "explicit0", 1, "one", TRUE),
+    Fm("set", "plain", "superset", "default", "explicit0", 1, "plain", FALSE) }
+F_Loose == {DefaultForm, [DefaultForm EXCEPT !.num = "explicit0"], [DefaultForm EXCEPT !.num = "float", !.cont = "set"]}
+ASSUME \A f \in F_Cover \cup F_Loose : IsForm(f)
+Sh_Forms == {<<1, 2, 2>>, <<2, 1, 2>>, <<2, 2, 2>>}
+D_Both == {"none", "some"}
 M_TF == {"True", "False"}
 M_All == {"True", "False", "None"}
 M_None == {"None"}
